@@ -1,0 +1,60 @@
+//go:build verif
+
+// C13 contracts for package negotiation (comment-only; read by /verif/vc).
+package negotiation
+
+// ClientHello body (RFC 6347 4.2.1): version(2) random(32) sid_len(1) sid cookie_len(1) cookie
+// cipher_suites compression [extensions]. A valid snapshot is produced only by snapshotClientHello,
+// which walks these vectors; wf(s) is that snapshot invariant.
+//   CO(s)  offset of the cookie length byte      CS(s)  first cookie byte
+//   CE(s)  first byte after the cookie           s.extensionOffset  start of the extension block
+
+//@ define CO(s) (35 + int(s.body[34]))
+//@ define CS(s) (36 + int(s.body[34]))
+//@ define CE(s) (36 + int(s.body[34]) + int(s.body[35 + int(s.body[34])]))
+//@ define wf(s) (len(s.body) >= 36 && 35 + int(s.body[34]) < len(s.body) && CE(s) <= s.extensionOffset && s.extensionOffset <= len(s.body))
+
+// helloVerifyClientHelloParts indexes the body without checks; it is memory-safe exactly under wf.
+// (No `requires` here or on the validator: the invariant is a type invariant of ClientHelloSnapshot
+// that callers in other packages cannot state - the fields are unexported - so it appears as the
+// antecedent of the validator's clauses and as safety obligations inside, not as a call-site duty.)
+
+// The snapshot invariant is established where snapshots are made: clientHelloExtensions walks the
+// four length-prefixed vectors after the random and returns the rest of the body.
+
+//@ define POS() (offsetOf(remainder) - offsetOf(body))
+
+//@ func clientHelloExtensions
+//@ ensures suffix: result1 == nil ==> len(result0) <= len(body) && sameArray(result0, body) && offsetOf(result0) + len(result0) == offsetOf(body) + len(body)
+//@ ensures cookie-length-inside: result1 == nil ==> len(body) >= 36 && 35 + int(body[34]) < len(body)
+//@ ensures extensions-after-cookie: result1 == nil ==> 36 + int(body[34]) + int(body[35 + int(body[34])]) <= len(body) - len(result0)
+//@ loop #1: suffix: sameArray(remainder, body) && offsetOf(remainder) + len(remainder) == offsetOf(body) + len(body) && POS() >= 34 && len(body) >= 34
+//@ loop #1: at-session-id: idx == 0 ==> POS() == 34
+//@ loop #1: at-cookie: idx == 1 ==> len(body) >= 35 && POS() == 35 + int(body[34])
+//@ loop #1: past-cookie: idx >= 2 ==> len(body) >= 36 && 35 + int(body[34]) < len(body) && POS() >= 36 + int(body[34]) + int(body[35 + int(body[34])])
+//@ end
+
+//@ func snapshotClientHello
+//@ ensures snapshot-invariant: result1 == nil ==> wf(result0)
+//@ ensures failed-is-invalid: result1 != nil ==> len(result0.body) == 0
+//@ end
+
+// The CID / use_srtp extension comparisons are separate steps; this property only needs that
+// they do not touch their inputs, so callers see them as opaque (result unknown).
+
+//@ func validateHelloVerifyExtension
+//@ noinline
+//@ end
+
+//@ func ValidateSRTPRetry
+//@ noinline
+//@ end
+
+//@ func ValidateHelloVerifyRequestResponse
+//@ ensures both-present: result == nil ==> len(initial.body) != 0 && len(retry.body) != 0
+//@ ensures cookie-echoed: result == nil && wf(initial) && wf(retry) ==> old(bytesEq(retry.body[CS(retry):CE(retry)], cookie))
+//@ ensures same-before-cookie: result == nil && wf(initial) && wf(retry) ==> old(bytesEq(initial.body[:CO(initial)], retry.body[:CO(retry)]))
+//@ ensures same-after-cookie: result == nil && wf(initial) && wf(retry) ==> old(bytesEq(initial.body[CE(initial):initial.extensionOffset], retry.body[CE(retry):retry.extensionOffset]))
+//@ ensures otherwise-identical-extensions-length: result == nil && wf(initial) && wf(retry) ==> len(initial.body) - initial.extensionOffset == len(retry.body) - retry.extensionOffset
+//@ ensures otherwise-identical-extensions: result == nil && wf(initial) && wf(retry) ==> old(bytesEq(initial.body[initial.extensionOffset:], retry.body[retry.extensionOffset:]))
+//@ end
